@@ -46,3 +46,143 @@ Theorem no_panic : forall w a b, 1 <= w ->
   (forall o, c_bin o (mkc w a) (mkc w b) <> Panic) /\ (forall o bits, c_ext o bits (mkc w a) <> Panic).
 Proof. exact ExprProofs.no_panic. Qed.
 Print Assumptions no_panic.
+
+(* 5. raw trees: whenever the specification has an opinion on a well-sorted closed tree, building it through
+      the checked constructors and evaluating it yields exactly that (value, DivideByZero or ExecutorScalar);
+      includes the derived builders RSra (= s_ashr) and RRotl (= s_rotl for amounts <= width).
+      rbounded: every width mentioned in the tree fits a usize. *)
+Theorem eval_den : forall r w x, rbounded r -> rsort r = SW w -> rden (fun _ => None) r = Some x ->
+  (e <- build r ;; eval e) = x.
+Proof. exact ExprProofs.eval_den. Qed.
+Print Assumptions eval_den.
+
+Theorem build_sort_error : forall r, rsort r = SErr -> (e <- build r ;; eval e) = Err ESort.
+Proof. exact ExprProofs.build_sort_error. Qed.
+Print Assumptions build_sort_error.
+
+(* 6. scalar substitution (all raw constructors, including RSra / RRotl) *)
+Theorem replace_scalar_subst : forall r w s v x, rbounded r -> rsort r = SW w -> 1 <= sbits s < 2 ^ 64 ->
+  rden (env1 s (mkc (sbits s) (U (sbits s) v))) r = Some x ->
+  (e <- build r ;; e1 <- replace_scalar e s (EConst (new_big v (sbits s))) ;; eval e1) = x.
+Proof. exact ExprProofs.replace_scalar_subst. Qed.
+Print Assumptions replace_scalar_subst.
+
+(* the two successive substitutions performed by the checker's KReplace cases *)
+Theorem replace_scalar_subst2 : forall r w s1 v1 s2 v2 x, rbounded r -> rsort r = SW w ->
+  1 <= sbits s1 < 2 ^ 64 -> 1 <= sbits s2 < 2 ^ 64 ->
+  rden (fun t => if scalar_eqb t s1 then Some (mkc (sbits s1) (U (sbits s1) v1))
+                 else if scalar_eqb t s2 then Some (mkc (sbits s2) (U (sbits s2) v2)) else None) r = Some x ->
+  (e <- build r ;;
+   e1 <- replace_scalar e s1 (EConst (new_big v1 (sbits s1))) ;;
+   e2 <- replace_scalar e1 s2 (EConst (new_big v2 (sbits s2))) ;; eval e2) = x.
+Proof. exact ExprProofs.replace_scalar_subst2. Qed.
+Print Assumptions replace_scalar_subst2.
+
+(* 7. non-vacuity: the hypotheses are satisfiable and the conclusions are the expected bit-vector values,
+      at widths 1, 7, 64, 65, 128, 200 (by computation) *)
+Example ex_w1 :
+  (1 <= 1 < 2 ^ 64) /\ inr 1 1 /\
+  c_bin Add (mkc 1 1) (mkc 1 1) = Ok (mkc 1 0) /\ sp_bin Add 1 1 1 = Ok (mkc 1 0) /\
+  c_bin AShr (mkc 1 1) (mkc 1 1) = Ok (mkc 1 1) /\ sp_bin AShr 1 1 1 = Ok (mkc 1 1) /\
+  c_bin Divs (mkc 1 1) (mkc 1 1) = Ok (mkc 1 1) /\ sp_bin Divs 1 1 1 = Ok (mkc 1 1) /\
+  c_bin Cmplts (mkc 1 1) (mkc 1 0) = Ok (mkc 1 1) /\ sp_bin Cmplts 1 1 0 = Ok (mkc 1 1).
+Proof. vm_compute; repeat split; try reflexivity; try discriminate. Qed.
+
+Example ex_w7 :
+  (1 <= 7 < 2 ^ 64) /\ inr 7 125 /\ inr 7 2 /\
+  c_bin Divs (mkc 7 125) (mkc 7 2) = Ok (mkc 7 127) /\ sp_bin Divs 7 125 2 = Ok (mkc 7 127) /\
+  c_bin Mods (mkc 7 125) (mkc 7 2) = Ok (mkc 7 127) /\ sp_bin Mods 7 125 2 = Ok (mkc 7 127) /\
+  c_bin Divu (mkc 7 125) (mkc 7 0) = Err EDivZero /\ sp_bin Divu 7 125 0 = Err EDivZero /\
+  c_bin Add (mkc 7 125) (mkc 8 2) = Err ESort /\
+  c_ext Sext 12 (mkc 7 125) = Ok (mkc 12 4093) /\ sp_ext Sext 12 (mkc 7 125) = Ok (mkc 12 4093).
+Proof. vm_compute; repeat split; try reflexivity; try discriminate. Qed.
+
+Example ex_w64 :
+  (1 <= 64 < 2 ^ 64) /\ inr 64 (2 ^ 63) /\ inr 64 65 /\
+  c_bin AShr (mkc 64 (2 ^ 63)) (mkc 64 65) = Ok (mkc 64 (2 ^ 64 - 1)) /\
+  sp_bin AShr 64 (2 ^ 63) 65 = Ok (mkc 64 (2 ^ 64 - 1)) /\
+  c_bin Shl (mkc 64 (2 ^ 63)) (mkc 64 64) = Ok (mkc 64 0) /\ sp_bin Shl 64 (2 ^ 63) 64 = Ok (mkc 64 0) /\
+  c_bin Sub (mkc 64 0) (mkc 64 1) = Ok (mkc 64 (2 ^ 64 - 1)) /\ sp_bin Sub 64 0 1 = Ok (mkc 64 (2 ^ 64 - 1)).
+Proof. vm_compute; repeat split; try reflexivity; try discriminate. Qed.
+
+Example ex_w65 :
+  (1 <= 65 < 2 ^ 64) /\ inr 65 (2 ^ 64 + 1) /\
+  c_bin Mul (mkc 65 (2 ^ 64 + 1)) (mkc 65 (2 ^ 64 + 1)) = Ok (mkc 65 1) /\
+  sp_bin Mul 65 (2 ^ 64 + 1) (2 ^ 64 + 1) = Ok (mkc 65 1) /\
+  c_bin Shl (mkc 65 1) (mkc 65 64) = Ok (mkc 65 (2 ^ 64)) /\ sp_bin Shl 65 1 64 = Ok (mkc 65 (2 ^ 64)) /\
+  c_ext Trun 64 (mkc 65 (2 ^ 64 + 1)) = Ok (mkc 64 1) /\ sp_ext Trun 64 (mkc 65 (2 ^ 64 + 1)) = Ok (mkc 64 1) /\
+  c_ext Trun 65 (mkc 65 1) = Err ESort /\ sp_ext Trun 65 (mkc 65 1) = Err ESort.
+Proof. vm_compute; repeat split; try reflexivity; try discriminate. Qed.
+
+(* 2^127:128 >>> 2^64:128 (amount beyond usize) is the sign fill; INT_MIN / -1 wraps *)
+Example ex_w128 :
+  (1 <= 128 < 2 ^ 64) /\ inr 128 (2 ^ 127) /\ inr 128 (2 ^ 64) /\
+  c_bin AShr (mkc 128 (2 ^ 127)) (mkc 128 (2 ^ 64)) = Ok (mkc 128 (2 ^ 128 - 1)) /\
+  sp_bin AShr 128 (2 ^ 127) (2 ^ 64) = Ok (mkc 128 (2 ^ 128 - 1)) /\
+  c_bin Divs (mkc 128 (2 ^ 127)) (mkc 128 (2 ^ 128 - 1)) = Ok (mkc 128 (2 ^ 127)) /\
+  sp_bin Divs 128 (2 ^ 127) (2 ^ 128 - 1) = Ok (mkc 128 (2 ^ 127)).
+Proof. vm_compute; repeat split; try reflexivity; try discriminate. Qed.
+
+Example ex_w200 :
+  (1 <= 200 < 2 ^ 64) /\ inr 200 (2 ^ 199) /\ inr 200 3 /\
+  c_bin AShr (mkc 200 (2 ^ 199)) (mkc 200 3) = Ok (mkc 200 (2 ^ 199 + 2 ^ 198 + 2 ^ 197 + 2 ^ 196)) /\
+  sp_bin AShr 200 (2 ^ 199) 3 = Ok (mkc 200 (2 ^ 199 + 2 ^ 198 + 2 ^ 197 + 2 ^ 196)) /\
+  c_bin Sub (mkc 200 0) (mkc 200 1) = Ok (mkc 200 (2 ^ 200 - 1)) /\
+  c_ext Zext 201 (mkc 200 (2 ^ 199)) = Ok (mkc 201 (2 ^ 199)) /\
+  c_ext Sext 201 (mkc 200 (2 ^ 199)) = Ok (mkc 201 (2 ^ 200 + 2 ^ 199)) /\
+  sp_ext Sext 201 (mkc 200 (2 ^ 199)) = Ok (mkc 201 (2 ^ 200 + 2 ^ 199)).
+Proof. vm_compute; repeat split; try reflexivity; try discriminate. Qed.
+
+(* hypotheses of eval_den / build_sort_error / replace_scalar_subst are satisfiable, with the derived builders:
+   sra(0x80:8, 9:8) = 0xff, rotl(0x81:8, 1:8) = 0x03, a zero divisor, a free scalar, an ill-sorted tree,
+   a tree at width 200, and a substitution *)
+Example ex_tree_sra :
+  let r := RSra (RConst 128 8) (RConst 9 8) in
+  rbounded r /\ rsort r = SW 8 /\ rden (fun _ => None) r = Some (Ok (mkc 8 255)) /\
+  (e <- build r ;; eval e) = Ok (mkc 8 255).
+Proof. vm_compute; repeat split; try reflexivity; try discriminate. Qed.
+
+Example ex_tree_rotl :
+  let r := RRotl (RConst 129 8) (RConst 1 8) in
+  rbounded r /\ rsort r = SW 8 /\ rden (fun _ => None) r = Some (Ok (mkc 8 3)) /\
+  (e <- build r ;; eval e) = Ok (mkc 8 3).
+Proof. vm_compute; repeat split; try reflexivity; try discriminate. Qed.
+
+Example ex_tree_w200 :
+  let r := RIte (RBin Cmplts (RConst (2 ^ 199) 200) (RConst 0 200))
+                (RSra (RConst (2 ^ 199) 200) (RConst 201 200))
+                (RExt Zext 200 (RBin Divu (RConst 1 65) (RConst 0 65))) in
+  rbounded r /\ rsort r = SW 200 /\ rden (fun _ => None) r = Some (Ok (mkc 200 (2 ^ 200 - 1))) /\
+  (e <- build r ;; eval e) = Ok (mkc 200 (2 ^ 200 - 1)).
+Proof. vm_compute; repeat split; try reflexivity; try discriminate. Qed.
+
+Example ex_tree_errors :
+  let d := RBin Mods (RConst 5 7) (RConst 0 7) in
+  let s := RBin Add (RScalar (mks 1%N 64 None)) (RConst 1 64) in
+  let b := RBin Add (RConst 1 64) (RConst 1 65) in
+  (rbounded d /\ rsort d = SW 7 /\ rden (fun _ => None) d = Some (Err EDivZero) /\
+   (e <- build d ;; eval e) = Err EDivZero) /\
+  (rbounded s /\ rsort s = SW 64 /\ rden (fun _ => None) s = Some (Err EExecScalar) /\
+   (e <- build s ;; eval e) = Err EExecScalar) /\
+  (rsort b = SErr /\ (e <- build b ;; eval e) = Err ESort).
+Proof. vm_compute; repeat split; try reflexivity; try discriminate. Qed.
+
+Example ex_replace :
+  let s := mks 1%N 65 None in
+  let r := RSra (RBin Sub (RScalar s) (RConst 1 65)) (RConst 64 65) in
+  rbounded r /\ rsort r = SW 65 /\ (1 <= sbits s < 2 ^ 64) /\
+  rden (env1 s (mkc 65 (U 65 0))) r = Some (Ok (mkc 65 (2 ^ 65 - 1))) /\
+  (e <- build r ;; e1 <- replace_scalar e s (EConst (new_big 0 65)) ;; eval e1) = Ok (mkc 65 (2 ^ 65 - 1)).
+Proof. vm_compute; repeat split; try reflexivity; try discriminate. Qed.
+
+(* the oracles of the differential check (C04Check.ck), literally: what the case files test on samples
+   holds for every input *)
+Theorem rspec_sound : forall r x, rbounded r -> rspec (fun _ => None) r = Some x ->
+  (e <- build r ;; eval e) = x.
+Proof. exact ExprProofs.rspec_sound. Qed.
+Print Assumptions rspec_sound.
+
+Theorem c_bin_spec_c : forall o a b, 1 <= cbits a < 2 ^ 64 -> 1 <= cbits b ->
+  inr (cbits a) (cval a) -> inr (cbits b) (cval b) -> c_bin o a b = sp_bin_c o a b.
+Proof. exact ExprProofs.c_bin_spec_c. Qed.
+Print Assumptions c_bin_spec_c.
